@@ -103,15 +103,14 @@ func (c *Classifier) match(in io.Reader) (Results, error) {
 		}
 	}
 
-	if len(firstPass) == 0 {
-		return Results{
-			Matches:         nil,
-			TotalInputLines: 0,
-		}, nil
+	// Perform the expensive work of generating a searchset to look for token
+	// runs. If no document passed the first pass there is nothing to look for,
+	// but the copyright notices found by the tokenizer and the number of input
+	// lines are still reported: they don't depend on which documents are in the
+	// corpus.
+	if len(firstPass) > 0 {
+		id.generateSearchSet(c.q)
 	}
-
-	// Perform the expensive work of generating a searchset to look for token runs.
-	id.generateSearchSet(c.q)
 
 	var candidates Matches
 	candidates = append(candidates, id.Matches...)
